@@ -15,15 +15,18 @@ import (
 	"encoding/json"
 	"fmt"
 	"io"
+	"log"
 	"net"
 	"net/http"
 	"net/http/httptest"
 	"os"
+	"path/filepath"
 	"runtime"
 	"sort"
 	"strconv"
 	"strings"
 	"sync"
+	"sync/atomic"
 	"testing"
 	"time"
 
@@ -69,7 +72,18 @@ type vfE7Producer struct {
 	Tombstones []bool
 }
 
-type vfE7Fail int // 0 = answers, >0 = a way of failing
+type vfE7Fail int // 0 = answers, >0 = a way of failing (7 = answers, but only after the 403 -> https upgrade)
+
+// Behaviours around the "403 on plain HTTP, retry on the announced HTTPS port" rule of the upstream client:
+//
+//	7  plain port: 403 {"https_port": <TLS twin>}; the TLS twin answers normally      → the upstream ANSWERS
+//	8  plain port: 403 {"https_port": <TLS twin>}; the TLS twin answers the same 403  → failed
+//	9  plain port: 403 {"https_port": <closed port>}                                   → failed
+//	10 plain port: 403 without https_port                                              → failed
+//	11 plain port: 403 with an unusable https_port                                     → failed
+const vfE7Upgrade vfE7Fail = 7
+
+func (f vfE7Fail) failed() bool { return f != 0 && f != vfE7Upgrade }
 
 type vfE7Lookupd struct {
 	Sym        string
@@ -184,7 +198,7 @@ func (w vfE7VWorld) tokens() string {
 	fmt.Fprintf(&sb, "W L %d", len(w.Lookupds))
 	for _, l := range w.Lookupds {
 		sb.WriteString(" " + l.Sym)
-		if l.TopicsFail != 0 {
+		if l.TopicsFail.failed() {
 			sb.WriteString(" F")
 		} else {
 			fmt.Fprintf(&sb, " O %d", len(l.Topics))
@@ -196,7 +210,7 @@ func (w vfE7VWorld) tokens() string {
 			f  vfE7Fail
 			ps []vfE7Producer
 		}{{l.NodesFail, l.Nodes}, {l.LookupFail, l.Lookup}} {
-			if ans.f != 0 {
+			if ans.f.failed() {
 				sb.WriteString(" F")
 			} else {
 				fmt.Fprintf(&sb, " O %d", len(ans.ps))
@@ -213,13 +227,13 @@ func (w vfE7VWorld) tokens() string {
 	fmt.Fprintf(&sb, " N %d", len(w.Nsqds))
 	for _, n := range w.Nsqds {
 		fmt.Fprintf(&sb, " %s %s", n.Sym, vfE7B(n.Filters))
-		if n.InfoFail != 0 {
+		if n.InfoFail.failed() {
 			sb.WriteString(" F")
 		} else {
 			a, b, c := vfE7Ver(n.Version)
 			fmt.Fprintf(&sb, " O %s %s 127.0.0.1:%d %s %d %d %d", vfE7S(n.Hostname), n.Sym, n.TCPPort, vfE7S(n.Version), a, b, c)
 		}
-		if n.StatsFail != 0 {
+		if n.StatsFail.failed() {
 			sb.WriteString(" F")
 		} else {
 			fmt.Fprintf(&sb, " O %d", len(n.Topics))
@@ -227,6 +241,30 @@ func (w vfE7VWorld) tokens() string {
 				t.tokens(&sb)
 			}
 		}
+	}
+	// how each failing / upgraded answer behaves (ignored by the model: it only needs answered-or-failed)
+	var fl []string
+	for _, l := range w.Lookupds {
+		for _, x := range []struct {
+			ep string
+			f  vfE7Fail
+		}{{"topics", l.TopicsFail}, {"nodes", l.NodesFail}, {"lookup", l.LookupFail}} {
+			if x.f != 0 {
+				fl = append(fl, fmt.Sprintf("%s %s %d", l.Sym, x.ep, x.f))
+			}
+		}
+	}
+	for _, n := range w.Nsqds {
+		if n.InfoFail != 0 {
+			fl = append(fl, fmt.Sprintf("%s info %d", n.Sym, n.InfoFail))
+		}
+		if n.StatsFail != 0 {
+			fl = append(fl, fmt.Sprintf("%s stats %d", n.Sym, n.StatsFail))
+		}
+	}
+	fmt.Fprintf(&sb, " X %d", len(fl))
+	for _, x := range fl {
+		sb.WriteString(" " + x)
 	}
 	return sb.String()
 }
@@ -329,6 +367,11 @@ func (p vfE7Producer) json(sb *strings.Builder, cl *vfE7VCluster) {
 // ------------------------------------------------------------------ stub servers
 
 type vfE7VCluster struct {
+	tlsSrv    map[string]*httptest.Server
+	tlsAddr   map[string]string
+	plainReqs int64
+	tlsReqs   int64
+	hangOff   bool // VERIF_HANG_OFF: cases with behaviour 8 are skipped (after the python side has reported the hang)
 	mu    sync.Mutex
 	world vfE7VWorld
 	srv   map[string]*httptest.Server
@@ -375,8 +418,44 @@ func vfE7FailWith(w http.ResponseWriter, how vfE7Fail) {
 	}
 }
 
-func (c *vfE7VCluster) serve(sym string) http.Handler {
+// upgradeGate handles the behaviours 7..11; true = the response has been written.
+func (c *vfE7VCluster) upgradeGate(w http.ResponseWriter, sym string, viaTLS bool, f *vfE7Fail) bool {
+	if *f < 7 || *f > 11 {
+		return false
+	}
+	mode := *f
+	forbid := func(body string) bool {
+		w.WriteHeader(403)
+		io.WriteString(w, body)
+		return true
+	}
+	_, tlsPort, _ := net.SplitHostPort(c.tlsAddr[sym])
+	if !viaTLS {
+		switch mode {
+		case 7, 8:
+			return forbid(`{"message":"TLS_REQUIRED","https_port":` + tlsPort + `}`)
+		case 9:
+			return forbid(`{"message":"TLS_REQUIRED","https_port":1}`)
+		case 10:
+			return forbid(`{"message":"FORBIDDEN"}`)
+		default:
+			return forbid(`{"message":"TLS_REQUIRED","https_port":"` + tlsPort + `"}`)
+		}
+	}
+	if mode == 8 {
+		return forbid(`{"message":"TLS_REQUIRED","https_port":` + tlsPort + `}`)
+	}
+	*f = 0 // the TLS twin answers normally
+	return false
+}
+
+func (c *vfE7VCluster) serve(sym string, viaTLS bool) http.Handler {
 	return http.HandlerFunc(func(w http.ResponseWriter, r *http.Request) {
+		if viaTLS {
+			atomic.AddInt64(&c.tlsReqs, 1)
+		} else {
+			atomic.AddInt64(&c.plainReqs, 1)
+		}
 		c.mu.Lock()
 		world := c.world
 		c.mu.Unlock()
@@ -394,8 +473,12 @@ func (c *vfE7VCluster) serve(sym string) http.Handler {
 			}
 			switch r.URL.Path {
 			case "/topics":
-				if l.TopicsFail != 0 {
-					vfE7FailWith(w, l.TopicsFail)
+				f := l.TopicsFail
+				if c.upgradeGate(w, sym, viaTLS, &f) {
+					return
+				}
+				if f != 0 {
+					vfE7FailWith(w, f)
 					return
 				}
 				sb.WriteString(`{"topics":[`)
@@ -410,6 +493,9 @@ func (c *vfE7VCluster) serve(sym string) http.Handler {
 				f, ps := l.NodesFail, l.Nodes
 				if r.URL.Path == "/lookup" {
 					f, ps = l.LookupFail, l.Lookup
+				}
+				if c.upgradeGate(w, sym, viaTLS, &f) {
+					return
 				}
 				if f != 0 {
 					vfE7FailWith(w, f)
@@ -440,16 +526,24 @@ func (c *vfE7VCluster) serve(sym string) http.Handler {
 			}
 			switch r.URL.Path {
 			case "/info":
-				if n.InfoFail != 0 {
-					vfE7FailWith(w, n.InfoFail)
+				f := n.InfoFail
+				if c.upgradeGate(w, sym, viaTLS, &f) {
+					return
+				}
+				if f != 0 {
+					vfE7FailWith(w, f)
 					return
 				}
 				_, port, _ := net.SplitHostPort(c.addrOf(sym))
 				fmt.Fprintf(&sb, `{"version":%s,"broadcast_address":"127.0.0.1","hostname":%s,"http_port":%s,"tcp_port":%d,"start_time":1}`,
 					vfE7J(n.Version), vfE7J(n.Hostname), port, n.TCPPort)
 			case "/stats":
-				if n.StatsFail != 0 {
-					vfE7FailWith(w, n.StatsFail)
+				f := n.StatsFail
+				if c.upgradeGate(w, sym, viaTLS, &f) {
+					return
+				}
+				if f != 0 {
+					vfE7FailWith(w, f)
 					return
 				}
 				q := r.URL.Query()
@@ -479,11 +573,15 @@ func (c *vfE7VCluster) serve(sym string) http.Handler {
 }
 
 func vfE7NewVCluster(nl, nn int) *vfE7VCluster {
-	c := &vfE7VCluster{srv: map[string]*httptest.Server{}, addr: map[string]string{"X0": vfE7Dead}, sym: map[string]string{vfE7Dead: "X0"}}
+	c := &vfE7VCluster{srv: map[string]*httptest.Server{}, addr: map[string]string{"X0": vfE7Dead}, sym: map[string]string{vfE7Dead: "X0"},
+		tlsSrv: map[string]*httptest.Server{}, tlsAddr: map[string]string{}, hangOff: os.Getenv("VERIF_HANG_OFF") != ""}
 	mk := func(sym string) {
-		s := httptest.NewServer(c.serve(sym))
+		s := httptest.NewServer(c.serve(sym, false))
 		a := strings.TrimPrefix(s.URL, "http://")
 		c.srv[sym], c.addr[sym], c.sym[a] = s, a, sym
+		ts := httptest.NewTLSServer(c.serve(sym, true))
+		ts.Config.ErrorLog = log.New(io.Discard, "", 0)
+		c.tlsSrv[sym], c.tlsAddr[sym] = ts, strings.TrimPrefix(ts.URL, "https://")
 	}
 	for i := 0; i < nl; i++ {
 		mk(fmt.Sprintf("L%d", i))
@@ -697,6 +795,7 @@ func (cl *vfE7VCluster) render(kind string, status int, body []byte) string {
 // ------------------------------------------------------------------ running a case
 
 type vfE7VEnv struct {
+	name string
 	t    *testing.T
 	cl   *vfE7VCluster
 	n    *NSQAdmin
@@ -722,12 +821,14 @@ func vfE7VSetup(t *testing.T, name string) *vfE7VEnv {
 	}
 	opts.HTTPClientConnectTimeout = 2 * time.Second
 	opts.HTTPClientRequestTimeout = 5 * time.Second
+	opts.HTTPClientTLSInsecureSkipVerify = true // the TLS twins of the stubs use httptest's certificate
 	n, err := New(opts)
 	if err != nil {
 		t.Fatal(err)
 	}
 	e.n, e.base, e.hs = n, *opts, NewHTTPServer(n)
 	e.out = vfE7Open(name)
+	e.name = name
 	return e
 }
 
@@ -749,9 +850,10 @@ func (r vfE7VReq) tokens() string {
 func (e *vfE7VEnv) run(w vfE7VWorld, r vfE7VReq) {
 	idx := e.idx
 	e.idx++
-	if idx < e.skip {
+	if idx < e.skip || (e.cl.hangOff && w.hasMode(8)) {
 		return
 	}
+	e.progress(idx)
 	e.cl.mu.Lock()
 	e.cl.world = w
 	e.cl.mu.Unlock()
@@ -787,7 +889,20 @@ func (e *vfE7VEnv) run(w vfE7VWorld, r vfE7VReq) {
 	e.out.ops.Flush()
 	req := httptest.NewRequest("GET", path, nil)
 	rec := httptest.NewRecorder()
-	e.hs.ServeHTTP(rec, req)
+	// every view runs under a deadline: a fetch that never returns keeps wg.Wait() (and the view) waiting for ever.
+	// The stuck server cannot be stopped from inside: report and leave the process (python restarts after this case).
+	done := make(chan struct{})
+	go func() {
+		e.hs.ServeHTTP(rec, req)
+		close(done)
+	}()
+	select {
+	case <-done:
+	case <-time.After(time.Duration(vfEnvInt("VERIF_VIEW_DEADLINE_MS", 5000)) * time.Millisecond):
+		fmt.Printf("VIEW-HANGS %s view got no answer within the deadline; requests seen by the stubs so far: %d plain, %d TLS\n",
+			r.kind, atomic.LoadInt64(&e.cl.plainReqs), atomic.LoadInt64(&e.cl.tlsReqs))
+		os.Exit(3)
+	}
 	// A fetch goroutine that panics runs its deferred wg.Done() first: the handler may well answer before the
 	// process dies. Wait until no goroutine is left inside clusterinfo (a panicking one kills the process here).
 	vfE7WaitFetchers()
@@ -802,6 +917,9 @@ func (e *vfE7VEnv) close() {
 	e.out.Close()
 	e.n.httpListener.Close()
 	for _, s := range e.cl.srv {
+		s.Close()
+	}
+	for _, s := range e.cl.tlsSrv {
 		s.Close()
 	}
 }
@@ -873,7 +991,10 @@ func vfE7GenWorld(r *vfRand, lookupdMode bool, pFail int) vfE7VWorld {
 	nn := 1 + r.Intn(4)
 	fail := func() vfE7Fail {
 		if r.Intn(8) < pFail {
-			return vfE7Fail(1 + r.Intn(6))
+			return vfE7Fail(1 + r.Intn(11))
+		}
+		if r.Intn(20) == 0 {
+			return vfE7Upgrade // answers, but only on its HTTPS port
 		}
 		return 0
 	}
@@ -998,7 +1119,10 @@ func TestVerifE7Views(t *testing.T) {
 				w := base
 				w.Nsqds = append([]vfE7Nsqd(nil), base.Nsqds...)
 				w.Lookupds = append([]vfE7Lookupd(nil), base.Lookupds...)
-				how := vfE7Fail(1 + (mask % 6))
+				how := vfE7Fail(1 + (mask % 11))
+				if how == vfE7Upgrade {
+					how = 8
+				}
 				for i := range w.Nsqds {
 					if mask&(1<<uint(2*i)) != 0 {
 						w.Nsqds[i].InfoFail = how
@@ -1310,7 +1434,115 @@ func vfE7ParseOp(line string) (vfE7VWorld, vfE7VReq) {
 		}
 		w.Nsqds = append(w.Nsqds, n)
 	}
+	if p.i < len(p.t) && p.next() == "X" {
+		for k := p.n(); k > 0; k-- {
+			sym, ep, f := p.s(), p.s(), vfE7Fail(p.n())
+			for i := range w.Lookupds {
+				if w.Lookupds[i].Sym == sym {
+					switch ep {
+					case "topics":
+						w.Lookupds[i].TopicsFail = f
+					case "nodes":
+						w.Lookupds[i].NodesFail = f
+					case "lookup":
+						w.Lookupds[i].LookupFail = f
+					}
+				}
+			}
+			for i := range w.Nsqds {
+				if w.Nsqds[i].Sym == sym {
+					if ep == "info" {
+						w.Nsqds[i].InfoFail = f
+					} else if ep == "stats" {
+						w.Nsqds[i].StatsFail = f
+					}
+				}
+			}
+		}
+	}
 	return w, r
+}
+
+// TestVerifE7GetV1: the upstream request helper itself (Client.GETV1 through nsqadmin's own client) against every
+// stub behaviour, starting on the plain and on the HTTPS port: outcome and the number of requests each port saw.
+func TestVerifE7GetV1(t *testing.T) {
+	e := vfE7VSetup(t, "getv1")
+	defer e.close()
+	for round := 0; round < 3; round++ {
+		for _, mode := range []vfE7Fail{0, 1, 2, 3, 5, 7, 8, 9, 10, 11} {
+			for _, https := range []bool{false, true} {
+				e.getv1(mode, https)
+			}
+		}
+	}
+	fmt.Printf("E7-GETV1 cases=%d hist=%v\n", e.out.n, e.hist)
+}
+
+func (e *vfE7VEnv) getv1(mode vfE7Fail, https bool) {
+	idx := e.idx
+	e.idx++
+	if idx < e.skip || (mode == 8 && e.cl.hangOff) {
+		return
+	}
+	e.progress(idx)
+	w := vfE7VWorld{NsqdAddrs: []string{"N0"}, Nsqds: []vfE7Nsqd{{Sym: "N0", Filters: true, InfoFail: mode, Hostname: "h", TCPPort: 4150, Version: "1.3.0"}}}
+	e.cl.mu.Lock()
+	e.cl.world = w
+	e.cl.mu.Unlock()
+	url := "http://" + e.cl.addr["N0"] + "/info"
+	if https {
+		url = "https://" + e.cl.tlsAddr["N0"] + "/info"
+	}
+	op := fmt.Sprintf("getv1 https=%s mode=%d", vfE7B(https), mode)
+	fmt.Fprintln(e.out.ops, op)
+	e.out.ops.Flush()
+	p0, t0 := atomic.LoadInt64(&e.cl.plainReqs), atomic.LoadInt64(&e.cl.tlsReqs)
+	res := make(chan error, 1)
+	go func() {
+		var v struct {
+			Version string `json:"version"`
+		}
+		res <- e.hs.client.GETV1(url, &v)
+	}()
+	var err error
+	select {
+	case err = <-res:
+	case <-time.After(time.Duration(vfEnvInt("VERIF_VIEW_DEADLINE_MS", 5000)) * time.Millisecond):
+		fmt.Printf("VIEW-HANGS GETV1 %s (stub behaviour %d) did not return within the deadline; requests seen: %d plain, %d TLS\n",
+			e.cl.symbolise(url), mode, atomic.LoadInt64(&e.cl.plainReqs)-p0, atomic.LoadInt64(&e.cl.tlsReqs)-t0)
+		os.Exit(3)
+	}
+	out := "ok"
+	if err != nil {
+		out = "failed"
+	}
+	fmt.Fprintf(e.out.impl, "%s %d %d\n", out, atomic.LoadInt64(&e.cl.plainReqs)-p0, atomic.LoadInt64(&e.cl.tlsReqs)-t0)
+	e.out.impl.Flush()
+	e.out.n++
+	e.hist[fmt.Sprintf("mode%d:%s", mode, out)]++
+}
+
+// progress records the index of the case about to run (python restarts after it when the process is lost).
+func (e *vfE7VEnv) progress(idx int) {
+	dir := os.Getenv("VERIF_OUT")
+	if dir == "" {
+		dir = os.TempDir()
+	}
+	os.WriteFile(filepath.Join(dir, e.name+".idx"), []byte(strconv.Itoa(idx)), 0o644)
+}
+
+func (w vfE7VWorld) hasMode(m vfE7Fail) bool {
+	for _, l := range w.Lookupds {
+		if l.TopicsFail == m || l.NodesFail == m || l.LookupFail == m {
+			return true
+		}
+	}
+	for _, n := range w.Nsqds {
+		if n.InfoFail == m || n.StatsFail == m {
+			return true
+		}
+	}
+	return false
 }
 
 // TestVerifE7Replay runs the op lines of the file VERIF_REPLAY through the real code.
@@ -1326,6 +1558,16 @@ func TestVerifE7Replay(t *testing.T) {
 		if strings.HasPrefix(line, "view ") {
 			w, r := vfE7ParseOp(line)
 			e.run(w, r)
+		}
+		if strings.HasPrefix(line, "getv1 ") {
+			f := map[string]string{}
+			for _, t := range strings.Fields(line)[1:] {
+				if kv := strings.SplitN(t, "=", 2); len(kv) == 2 {
+					f[kv[0]] = kv[1]
+				}
+			}
+			m, _ := strconv.Atoi(f["mode"])
+			e.getv1(vfE7Fail(m), f["https"] == "1")
 		}
 	}
 }
